@@ -33,12 +33,12 @@ type handlerProg struct {
 }
 
 type c11Case struct {
-	Spec        *CfgSpec      `json:"spec,omitempty"` // nil = passthrough
-	Passthrough string        `json:"passthrough,omitempty"`
-	Debug       bool          `json:"debug"`
-	Preset      []hdrOp       `json:"preset"`
-	Handler     handlerProg   `json:"handler"`
-	Req         Req           `json:"request"`
+	Spec        *CfgSpec    `json:"spec,omitempty"` // nil = passthrough
+	Passthrough string      `json:"passthrough,omitempty"`
+	Debug       bool        `json:"debug"`
+	Preset      []hdrOp     `json:"preset"`
+	Handler     handlerProg `json:"handler"`
+	Req         Req         `json:"request"`
 	// Nested: between its header operations and WriteHeader the handler sends a second request (same request, the
 	// same program with every value suffixed "-nested") through the same wrapped handler - the deterministic
 	// stand-in for a concurrent exchange (lesson of seeded change C11-h: response-header slices shared between exchanges)
